@@ -60,8 +60,9 @@ def gen_programs(ctx):
     seen, out = set(), []
     for p in progs:
         text = render(p["toks"], p["nl"])
-        if text not in seen:
-            seen.add(text)
+        key = (text, tuple(p.get("sw") or ()))      # the "sw" family: one text under several switches
+        if key not in seen:
+            seen.add(key)
             out.append((text, p))
     if ctx.quick:
         rnd = random.Random(ctx.seed)
@@ -81,6 +82,14 @@ def run(ctx):
         progs = gen_programs(ctx)
     cases, meta = [], []
     for text, p in progs:
+        if p.get("fam") == "sw":
+            # DiagWF "sw" family: the switch (which code is off, and how) comes with the program; a switch by comment
+            # is already part of the text
+            code, how = p["sw"]
+            rc = {"diagnostics": {"disable": [code]}} if how == "config" else None
+            cases.append(_diag.one_file_case(len(cases), text, rc))
+            meta.append((text, "sw:%s:%s" % (code, how), p["off"], p))
+            continue
         for cname, rc, syn in CONFIGS:
             if cname == "nosyntax" and len(cases) % 5:
                 continue
@@ -108,8 +117,9 @@ def run(ctx):
         errs = []
         for e in o["errors"]["main/a.lua"]:
             errs.append(list(_diag.byte_to_pos(text, e["s"])) + list(_diag.byte_to_pos(text, e["e"]))
-                        + [msgs.setdefault(e["msg"], len(msgs))])
-        recs.append({"id": len(recs), "lens": _diag.line_table(text), "none": res is None, "syn": syn,
+                        + [msgs.setdefault(e["msg"], len(msgs)), e["kind"]])
+        off = syn if isinstance(syn, list) else ([] if syn else ["syntax", "doc"])
+        recs.append({"id": len(recs), "lens": _diag.line_table(text), "none": res is None, "syn": not off, "off": off,
                      "diags": diags, "errs": errs})
         keep.append((text, cname, res, o["errors"]["main/a.lua"], p))
     if os.environ.get("VERIF_SELFTEST") == "corrupt-record":
@@ -142,6 +152,8 @@ def run(ctx):
                     other = any(d[:4] == at and d[4] in ("syntax-error", "doc-syntax-error") for d in recs[rid]["diags"])
                     sig = "C21/uncovered-parse-error/%s/%s" % (
                         wit["kind"], "other-message-at-range" if other else "no-diagnostic-at-range")
+                    if recs[rid]["off"]:
+                        sig += "/other-code-disabled"
                 else:
                     wit = diags[w - 1]
                     sig = "C21/%s/%s" % (pred, wit["code"])
